@@ -129,6 +129,79 @@ def cluster(rng, ra0, dec0, n, size_deg):
     return [offset(ra0, dec0, rng.uniform(-size_deg, size_deg), rng.uniform(-size_deg, size_deg)) for _ in range(n)]
 
 
+# geometry of the data relative to the GIVEN patch centres ------------------------------------
+def vec(p):
+    ra, dec = math.radians(p[0]), math.radians(p[1])
+    return (math.cos(ra) * math.cos(dec), math.sin(ra) * math.cos(dec), math.sin(dec))
+
+
+def lonlat(v):
+    n = math.sqrt(v[0] ** 2 + v[1] ** 2 + v[2] ** 2)
+    return (math.degrees(math.atan2(v[1], v[0])) % 360.0, math.degrees(math.asin(max(-1.0, min(1.0, v[2] / n)))))
+
+
+def angdist(p, q):
+    """great-circle separation in degrees"""
+    a, b = vec(p), vec(q)
+    cr = (a[1] * b[2] - a[2] * b[1], a[2] * b[0] - a[0] * b[2], a[0] * b[1] - a[1] * b[0])
+    return math.degrees(math.atan2(math.sqrt(cr[0] ** 2 + cr[1] ** 2 + cr[2] ** 2), a[0] * b[0] + a[1] * b[1] + a[2] * b[2]))
+
+
+def bearing(p, q):
+    """initial bearing (radians, clockwise from north) of the great circle from p to q"""
+    l1, p1, l2, p2 = math.radians(p[0]), math.radians(p[1]), math.radians(q[0]), math.radians(q[1])
+    return math.atan2(math.sin(l2 - l1) * math.cos(p2), math.cos(p1) * math.sin(p2) - math.sin(p1) * math.cos(p2) * math.cos(l2 - l1))
+
+
+def offset_polar(p, rho, brg):
+    """point at great-circle distance rho [deg] from p in direction brg"""
+    return offset(p[0], p[1], rho * math.sin(brg), rho * math.cos(brg))
+
+
+def meeting_point(points):
+    """the point where the patches of the given centres meet (pair: midpoint of the border; 2x2 block: the corner)"""
+    vs = [vec(p) for p in points]
+    return lonlat(tuple(sum(v[k] for v in vs) for k in range(3)))
+
+
+# shape -> (rho_lo, rho_hi, half opening angle [deg]) in units of the reach (= distance from the given centre to the
+# meeting point it faces).  The given centre lies outside the convex hull of the data in all of them.
+SHAPES = {
+    "oneside": (0.60, 0.96, 15.0),    # a strip / small field along the border, far from the given centre
+    "crescent": (0.80, 0.94, 70.0),   # a wide arc hugging the border
+    "arc": (0.80, 0.94, 40.0),        # a shorter arc
+    "corner": (0.50, 0.75, 20.0),     # data filling the corner of the patch (2x2 blocks of centres)
+    "rim": (0.90, 0.97, 4.0),         # a tight clump right at the border
+    "single": (0.70, 0.95, 10.0),     # one object per patch, far from the centre
+}
+
+
+def face_targets(cents, faces, grid):
+    """per patch the point its data sit next to"""
+    n = len(cents)
+    if grid:                      # a 2x2 block: all four patches hold data next to the common corner
+        return [meeting_point(cents[:4])] * n
+    out = []
+    for k in range(n):
+        if faces == "pairs":      # 0|1, 2|3, ...: both sides of a border are populated (a strip across the border)
+            nb = k + 1 if k % 2 == 0 else k - 1
+        elif faces == "chain":    # every patch faces its successor: borders populated from one side only
+            nb = k + 1
+        else:                     # "alt": 0 <- 1 | 2 -> ...: shifted pairing (1|2, 3|4)
+            nb = k - 1 if k % 2 == 0 else k + 1
+        if nb < 0 or nb >= n:
+            nb = k - 1 if nb >= n else k + 1
+        out.append(meeting_point([cents[k], cents[nb]]))
+    return out
+
+
+def shaped(rng, centre, target, m, shape):
+    lo, hi, phi = SHAPES[shape]
+    reach = angdist(centre, target)
+    brg = bearing(centre, target)
+    return [offset_polar(centre, reach * rng.uniform(lo, hi), brg + math.radians(rng.uniform(-phi, phi))) for _ in range(m)]
+
+
 # ---------------------------------------------------------------- L1
 def run_l1(ctx):
     from yaw.catalog.trees import AngularTree
@@ -238,6 +311,24 @@ def cat_objects(cat, edges, closed):
 REGIONS = [("equator", 40.0, 3.0), ("wrap", 359.7, -12.0), ("npole", 77.0, 89.2), ("spole", 300.0, -89.5), ("mid", 150.0, 45.0)]
 
 
+SYM = dict(shapes=("sym", "sym"), faces="pairs", grid=False, centers_from_catalog=False)
+
+
+def geometry_spec(rng, force=False):
+    """where the data sit relative to the given centres: (shape of the reference-like catalogs, shape of the unknown-like
+    ones), which border each patch faces, line or 2x2 block of centres, centres handed over as coordinates or as a catalog"""
+    if not force and rng.random() < 0.45:
+        return dict(shapes=("sym", "sym"), faces="pairs", grid=False, centers_from_catalog=rng.random() < 0.2)
+    one = ["oneside", "oneside", "crescent", "arc", "rim", "single"]
+    grid = rng.random() < 0.25
+    a = "corner" if grid else rng.choice(one)
+    b = rng.choice([a, a, "corner" if grid else rng.choice(one), "sym-compact"])
+    if rng.random() < 0.5:
+        a, b = b, a
+    return dict(shapes=(a, b), faces=rng.choice(["pairs", "pairs", "alt", "chain"]), grid=grid,
+                centers_from_catalog=rng.random() < 0.3)
+
+
 def l3_spec(rng, kind_hint=None):
     """one end-to-end scenario"""
     region = rng.choice(REGIONS)
@@ -256,14 +347,20 @@ def l3_spec(rng, kind_hint=None):
     if unit in ("kpc", "Mpc", "kpc/h", "Mpc/h"):
         cosmo = rng.choice([None, None, ["flat", 50.0, 0.3], ["flat", 70.0, 0.25], ["flat", 100.0, 0.4], ["flat", 85.0, 0.15],
                             ["clone", 55.0], ["clone", 90.0]])
-    return dict(region=region[0], ra0=region[1], dec0=region[2], flavour=flavour, unit=unit, nbins=nb, zmin=zmin, zmax=zmax, cosmo=cosmo,
+    spec = dict(region=region[0], ra0=region[1], dec0=region[2], flavour=flavour, unit=unit, nbins=nb, zmin=zmin, zmax=zmax, cosmo=cosmo,
                 closed=rng.choice(["right", "left"]), auto=rng.random() < 0.4, npatch=rng.choice([2, 3, 4, 5]),
                 nscales=rng.choice([1, 1, 2]), rweight=rng.choice([None, None, None, -1.0, 0.5]), resolution=rng.choice([None, 3, 10]),
                 weights=rng.random() < 0.6, count_rr=rng.random() < 0.5, rands=rng.choice(["both", "unk", "ref"]),
                 prior=rng.random() < 0.25, dseed=rng.randrange(10 ** 6))
+    # the geometry is drawn from its own generator (the sequence of the draws above is what it was before)
+    import random
+    spec.update(geometry_spec(random.Random(spec["dseed"] + 7919)))
+    if kind_hint is not None:
+        spec.update(SYM)  # the targeted probes of other classes keep data centred on the given centres
+    return spec
 
 
-def run_l3_case(ctx, spec, cid, terms, metas):
+def run_l3_case(ctx, spec, cid, terms, metas, cov):
     import random
     import yaw
     from yaw.correlation import measurements as M
@@ -301,12 +398,20 @@ def run_l3_case(ctx, spec, cid, terms, metas):
     # geometry: patch centres on a line, spacing relative to theta0
     npatch = spec["npatch"]
     spacing = theta0 * (spec.get("spacing_f") or rng.choice([0.8, 1.5, 2.5, 4.0]))
-    cents = spec.get("cents") or [offset(spec["ra0"], spec["dec0"], k * spacing, 0.0) for k in range(npatch)]
+    shapes = tuple(spec.get("shapes") or ("sym", "sym"))
+    grid = bool(spec.get("grid"))
+    if grid:
+        npatch = 4
+    cents = spec.get("cents") or ([offset(spec["ra0"], spec["dec0"], a * spacing, b * spacing) for b in (0, 1) for a in (0, 1)] if grid else
+                                  [offset(spec["ra0"], spec["dec0"], k * spacing, 0.0) for k in range(npatch)])
+    targets = face_targets(cents, spec.get("faces") or "pairs", grid) if any(sh in SHAPES for sh in shapes) else None
     centers = impl.AngularCoordinates(np.deg2rad(np.asarray(cents)))
     zvals = sorted(set(list(edges) + list(zmid) + [edges[0] * 0.5, edges[-1] * 1.1]))
 
-    def sample(npts, spread, with_z):
+    def sample(npts, spread, with_z, shape="sym"):
         pts, w, z = [], [], []
+        if shape == "sym-compact":
+            spread = spacing * 0.04
         if spec.get("uniform_sphere"):
             # points anywhere on the sphere (patches as large as hemispheres / octants)
             pts = [(rng.uniform(0.0, 360.0), math.degrees(math.asin(rng.uniform(-1.0, 1.0)))) for _ in range(npts)]
@@ -314,7 +419,10 @@ def run_l3_case(ctx, spec, cid, terms, metas):
             if spec.get("uniform_sphere"):
                 break
             m = max(1, npts // npatch)
-            pts.extend(cluster(rng, cents[k][0], cents[k][1], m, spread))
+            if shape in SHAPES:
+                pts.extend(shaped(rng, cents[k], targets[k], 1 if shape == "single" else m, shape))
+            else:
+                pts.extend(cluster(rng, cents[k][0], cents[k][1], m, spread))
         w = [rng.randrange(1, 9) / 2.0 for _ in pts] if spec["weights"] else None
         z = [float(rng.choice(zvals)) for _ in pts] if with_z else None
         return pts, w, z
@@ -333,10 +441,17 @@ def run_l3_case(ctx, spec, cid, terms, metas):
     if spec.get("prior"):
         prior_cfg = yaw.Configuration.create(rmin=rmins, rmax=rmaxs, unit=unit, edges=edges,
                                              closed="left" if spec["closed"] == "right" else "right", max_workers=1, **cosmo_kw)
+    sh_ref, sh_unk = shapes
+
+    def given():
+        """the centres as handed to the next creation: coordinates, or the first catalog of the measurement"""
+        if spec.get("centers_from_catalog") and cats:
+            return next(iter(cats.values()))
+        return centers
     try:
         if spec["auto"]:
-            cats["data"] = make_catalog(ctx, "data", *sample(ref_n, ref_s, True), centers)
-            cats["rand"] = make_catalog(ctx, "rand", *sample(unk_n, unk_s, True), centers)
+            cats["data"] = make_catalog(ctx, "data", *sample(ref_n, ref_s, True, sh_ref), given())
+            cats["rand"] = make_catalog(ctx, "rand", *sample(unk_n, unk_s, True, sh_unk), given())
             if prior_cfg is not None:
                 yaw.autocorrelate(prior_cfg, cats["data"], cats["rand"], count_rr=False, max_workers=1)
             res = yaw.autocorrelate(cfg, cats["data"], cats["rand"], count_rr=spec["count_rr"], max_workers=1)
@@ -344,14 +459,14 @@ def run_l3_case(ctx, spec, cid, terms, metas):
             if spec["count_rr"]:
                 kinds.append(("rr", "rand", "rand", True, True))
         else:
-            cats["ref"] = make_catalog(ctx, "ref", *sample(ref_n, ref_s, True), centers)
-            cats["unk"] = make_catalog(ctx, "unk", *sample(unk_n, unk_s, False), centers)
+            cats["ref"] = make_catalog(ctx, "ref", *sample(ref_n, ref_s, True, sh_ref), given())
+            cats["unk"] = make_catalog(ctx, "unk", *sample(unk_n, unk_s, False, sh_unk), given())
             kw = {}
             if spec["rands"] in ("both", "unk"):
-                cats["unk_rand"] = make_catalog(ctx, "unk_rand", *sample(unk_n, unk_s, False), centers)
+                cats["unk_rand"] = make_catalog(ctx, "unk_rand", *sample(unk_n, unk_s, False, sh_unk), given())
                 kw["unk_rand"] = cats["unk_rand"]
             if spec["rands"] in ("both", "ref"):
-                cats["ref_rand"] = make_catalog(ctx, "ref_rand", *sample(ref_n, ref_s, True), centers)
+                cats["ref_rand"] = make_catalog(ctx, "ref_rand", *sample(ref_n, ref_s, True, sh_ref), given())
                 kw["ref_rand"] = cats["ref_rand"]
             if prior_cfg is not None:
                 yaw.crosscorrelate(prior_cfg, cats["ref"], cats["unk"], max_workers=1, **kw)
@@ -384,8 +499,32 @@ def run_l3_case(ctx, spec, cid, terms, metas):
                                                     [cats["ref"], cats["unk"]] + [cats[k] for k in ("ref_rand", "unk_rand") if k in cats])).patch_links
     # objects
     objs = {name: cat_objects(cat, edges, spec["closed"]) for name, cat in cats.items()}
-    K = scale_of([o[0] for v in objs.values() for o in v])
+    cen3 = {name: cat.get_centers().to_3d() for name, cat in cats.items()}
+    K = scale_of([o[0] for v in objs.values() for o in v] + list(cen3.values()))
     iobj = {name: [([to_int(x, K) for x in o[0]], o[1], o[2], o[3]) for o in v] for name, v in objs.items()}
+    # coverage: every stored radius must contain every object of its patch around the STORED centre (the hypothesis under
+    # which pruning by centre distance is sound).  Squared chords of the implementation's own unit vectors, exact integers;
+    # the stored radius (an angle) is turned into a chord the way the implementation does and bracketed by 2^-40 (relative),
+    # which absorbs the rounding of its float distance / arcsin / sin round trip.
+    uncovered = {}
+    for name, cat in cats.items():
+        icen = [[to_int(x, K) for x in c] for c in cen3[name]]
+        crad = chord(cat.get_radii().data)
+        T = [thr2(r, K) for r in crad]
+        thi = [ifloor(t * (1 + TIE)) for t in T]
+        tlo = [-ifloor(-(t * (1 - TIE))) for t in T]
+        bad = []
+        for o in iobj[name]:
+            dd2 = d2(o[0], icen[o[3]])
+            if dd2 > thi[o[3]]:
+                bad.append(dict(patch=o[3], chord_object=math.sqrt(float(Fraction(dd2, 1 << (2 * K)))), chord_radius=float(crad[o[3]])))
+        uncovered[name] = bad
+        cov["terms"].append("c01_cover_case %s %s %s %s" % (
+            fq.lst([obj_term(*o) for o in iobj[name]]), fq.lst([obj_term(c, 0.0, 0, i) for i, c in enumerate(icen)]),
+            fq.qlist(tlo), fq.qlist(thi)))
+        cov["metas"].append((cid, name, dict(layer="L3-cover", spec=spec, catalog=name, uncovered=bad[:4], n_uncovered=len(bad),
+                                            radii=[float(x) for x in cat.get_radii().data])))
+        ctx.bump("L3/cover:%s" % ("|".join(spec.get("shapes") or ("sym", "sym"))))
     # per-bin configuration tables
     cfgs, theta_hi = [], []
     for b in range(spec["nbins"]):
@@ -488,6 +627,14 @@ def run_l3_case(ctx, spec, cid, terms, metas):
                 cause = ("c01-prune-maxangle-below-bin-angle",
                          "pairs lost to patch pruning: the pruning angle %.4g rad (taken at max(zmin, 0.05) / zmin) is smaller than the "
                          "largest scale angle %.4g rad at bin centre z=%.4g (unit %s)" % (Mang, max(theta_hi[b]), zmid[b], unit))
+            elif unlinked and any(u["patch"] in (i, j) for nm in cats for u in uncovered[nm]):
+                who = [(nm, u) for nm in cats for u in uncovered[nm] if u["patch"] in (i, j)]
+                cause = ("c01-prune-radius-not-covering-data",
+                         "pairs lost to patch pruning: patches %d,%d are not linked, and the radius stored with catalog %r for patch %d "
+                         "(chord %.6g) does not contain its objects around the stored centre (object at chord %.6g; %d such objects in "
+                         "the measurement) - radius and centre of the patch are inconsistent, so the link test by centre distance is unsound"
+                         % (i, j, who[0][0], who[0][1]["patch"], who[0][1]["chord_radius"], who[0][1]["chord_object"],
+                            sum(len(v) for v in uncovered.values())))
             elif unlinked and not links_ok and all(
                     set(links_impl[a]) == {c for c in range(npatch) if Fraction(dist[a][c]) <= Fraction(float(rad.data[a])) + Fraction(float(rad.data[c])) + Fraction(Mang)
                                            or Fraction(dist[a][c]) < Fraction(float(rad.data[a])) + Fraction(float(rad.data[c])) + Fraction(Mang)} for a in range(npatch)):
@@ -504,7 +651,8 @@ def run_l3_case(ctx, spec, cid, terms, metas):
         elif extra:
             cause = ("c01-count-extra", "more pair weight than exists")
         metas.append((case_id, dict(layer="L3", spec=spec, kind=kind, lost=lost[:4], extra=extra[:4], Mang=Mang,
-                                    theta_hi=theta_hi, radii=radii, links=[sorted(links_impl[i]) for i in range(npatch)]), cause))
+                                    theta_hi=theta_hi, radii=radii, links=[sorted(links_impl[i]) for i in range(npatch)],
+                                    uncovered={nm: v[:3] for nm, v in uncovered.items() if v}), cause))
         ctx.sample(dict(layer="L3", spec=spec, kind=kind, n1=len(O1), n2=len(O2), nonzero=nonzero), limit=3)
     for name in cats:
         shutil.rmtree(str(cats[name].cache_directory), ignore_errors=True)
@@ -512,6 +660,7 @@ def run_l3_case(ctx, spec, cid, terms, metas):
 
 def run_l3(ctx):
     terms, metas = [], []
+    cov = dict(terms=[], metas=[])
     specs = [l3_spec(ctx.rng) for _ in range(ctx.n(10, 150))]
     # targeted probes for the regions the property names (deterministic every run)
     import random
@@ -545,25 +694,76 @@ def run_l3(ctx):
         s.update(auto=auto, rweight=None, prior=True, nbins=2, npatch=3, unit="arcmin", zmin=0.2, zmax=0.6, spacing_f=0.8,
                  spreads=(0.3, 0.3), sizes=(18, 18))
         specs.append(s)
+    # deterministic: where the data sit relative to the GIVEN centres.  In every catalog of the measurement the objects lie
+    # next to a patch border (strip across the border, crescent, corner of a 2x2 block, tight clump at the rim, a single
+    # object), the given centre outside the convex hull of its data; one catalog compact around the centre and one at the
+    # border; centres handed over as coordinates or as the first catalog.  The scale is below the distance of the centres, so
+    # whether a neighbouring patch pair is visited depends on the stored radii really reaching the data.
+    GEO = [  # auto, shapes (reference-like, unknown-like), faces, 2x2 block, spacing / theta_max, patches, centres from catalog, bins
+        (False, ("oneside", "oneside"), "pairs", False, 2.5, 4, False, 2),
+        (True, ("oneside", "oneside"), "pairs", False, 2.5, 4, False, 2),
+        (False, ("crescent", "oneside"), "alt", False, 1.5, 3, True, 2),
+        (True, ("crescent", "arc"), "pairs", False, 4.0, 2, False, 2),
+        (False, ("arc", "arc"), "chain", False, 4.0, 3, False, 1),
+        (False, ("corner", "corner"), "pairs", True, 2.5, 4, False, 2),
+        (True, ("corner", "corner"), "pairs", True, 1.5, 4, True, 2),
+        (False, ("sym-compact", "oneside"), "pairs", False, 2.5, 4, False, 2),   # compact at the centre / wide at the border
+        (False, ("rim", "arc"), "pairs", False, 4.0, 3, False, 2),               # compact at the border / wide at the border
+        (True, ("rim", "sym-compact"), "chain", False, 1.5, 3, False, 2),
+        (False, ("single", "rim"), "pairs", False, 2.5, 4, True, 1),
+        (True, ("single", "single"), "pairs", False, 1.5, 5, False, 1),
+    ]
+    for rep in range(ctx.n(1, 4)):
+        for auto, shapes, faces, grid, sf, npatch, fromcat, nbins in GEO:
+            s = l3_spec(prng, "plain")
+            s.update(auto=auto, rweight=None, prior=False, nbins=nbins, npatch=npatch, zmin=0.2, zmax=0.6, spacing_f=sf,
+                     unit=prng.choice(["arcmin", "deg", "Mpc", "kpc/h"]), spreads=(0.3, 0.3), sizes=(6 * npatch, 6 * npatch),
+                     count_rr=True, rands="both", flavour="geometry", shapes=shapes, faces=faces, grid=grid,
+                     centers_from_catalog=fromcat)
+            if s["unit"] in ("arcmin", "deg"):
+                s["cosmo"] = None
+            specs.append(s)
     for cid, spec in enumerate(specs):
         try:
-            run_l3_case(ctx, spec, cid, terms, metas)
+            run_l3_case(ctx, spec, cid, terms, metas, cov)
         except Exception as e:
             import traceback
             ctx.count(key=("l3-raise", cid), kind="L3/raised")
             ctx.fail("c01-measure-raises:%s" % type(e).__name__, "measurement on valid catalogs raised %r" % e,
                      dict(layer="L3", spec=spec, traceback=traceback.format_exc()[-1500:]), case=(cid, "raise"))
     codes = ctx.shards("Cases_C01_L3", HEADER, terms, shard=6)
+    failed = {}   # L3 scenario -> case ids with a failing count cell
     for (cid, meta, cause), c in zip(metas, codes):
         if not c:
             continue
         if c & 2:
             sig, what = cause if cause else ("c01-cell-mismatch", "a pair-count cell differs from the weight-product sum over (theta_min, theta_max]")
+            if not cause and meta["uncovered"]:
+                what += "; stored patch radii do not contain the patch's objects around the stored centre: %s" % meta["uncovered"]
             ctx.fail(sig, what, meta, case=cid)
+            failed.setdefault(cid[0], []).append(cid)
+            sp = meta["spec"]
+            ctx.log("L3 failing case %s: %s [%s %s shapes=%s faces=%s block=%s spacing_f=%s region=%s unit=%s] lost=%d extra=%d" % (
+                cid, sig, "auto" if sp["auto"] else "cross", sp["flavour"], sp.get("shapes"), sp.get("faces"), sp.get("grid"),
+                sp.get("spacing_f"), sp["region"], sp["unit"], len(meta["lost"]), len(meta["extra"])))
         if c & 4:
             ctx.fail("c01-sum-weights", "stored per-bin per-patch weight sums differ from the true sums", meta, case=cid)
         if c & 1 or c & 8:
             ctx.disagree("Cases_C01_L3", cid, dict(code=c, meta=meta))
+    # coverage of the stored radii (the table the linkage model takes from the implementation)
+    ccodes = ctx.shards("Cases_C01_COV", HEADER, cov["terms"], shard=30)
+    for (cid, name, meta), c in zip(cov["metas"], ccodes):
+        if c is None:
+            continue
+        if bool(c & 2) != bool(meta["n_uncovered"]):
+            ctx.obligation("c01-cover-classification:%s/%s" % (cid, name), False, "harness and Coq disagree on coverage (code %s, %d)" % (c, meta["n_uncovered"]))
+        if c & 2:
+            # the property speaks about counts: the lost pairs (if any in this scenario) are the failing input, reported
+            # above with the coverage data; without lost pairs the tie (radii taken as a table) is broken
+            ctx.bump("cover/radius-does-not-contain-data")
+            ctx.disagree("Cases_C01_COV", failed[cid][0] if cid in failed else (cid, "cover", name), dict(code=c, meta=meta))
+        elif c & 1:
+            ctx.bump("cover/radius-larger-than-data")   # conservative (harmless for the property), counted only
 
 
 def run(ctx):
